@@ -108,6 +108,10 @@ theorem C10_closure_nil_error_stays_nil : Skeleton.current.clNilErrorViaIsNil = 
 theorem C10_results_pass_through_utils_call :
     Skeleton.current.ucResultsUntouched = true := by decide
 
+/-- A closure that panics yields an error for that invocation, never the end of the link: the inner `utils.Call` recovers every panic, maps non-error values, and re-raises none (checked against the regenerated skeleton). -/
+theorem C10_a_panicking_closure_is_an_error_not_a_dead_link :
+    Skeleton.current.ucRecovers = true ∧ Skeleton.current.ucNonErrorPanicMapped = true ∧ Skeleton.current.panicSitesCanonical = true ∧ Skeleton.current.clCallViaUtilsCall = true := by decide
+
 end Panrpc.Wire
 
 #print axioms Panrpc.Wire.C10_message_exact
@@ -118,3 +122,4 @@ end Panrpc.Wire
 #print axioms Panrpc.Wire.C10_closure_value_kept_with_error
 #print axioms Panrpc.Wire.C10_closure_nil_error_stays_nil
 #print axioms Panrpc.Wire.C10_results_pass_through_utils_call
+#print axioms Panrpc.Wire.C10_a_panicking_closure_is_an_error_not_a_dead_link
